@@ -292,8 +292,11 @@ class Trie(object):
         if not tokens_string:
             return
 
-        tokens = get_tokens(tokens_string)
+        tokens = get_tokens(tokens_string, lower=False)
         state = self.root
+
+        # start position of each non-space token seen so far
+        starts = []
 
         if TRACE:
             logger_debug('Trie.iter() with:', repr(tokens_string))
@@ -302,6 +305,8 @@ class Trie(object):
         end_pos = -1
         for token_string in tokens:
             end_pos += len(token_string)
+            start_pos = end_pos - len(token_string) + 1
+            token_string = token_string.lower()
             if TRACE:
                 logger_debug()
                 logger_debug('token_string', repr(token_string))
@@ -312,13 +317,13 @@ class Trie(object):
                     logger_debug('  include_space skipped')
                 continue
 
+            starts.append(start_pos)
+
             if token_string not in self._known_tokens:
                 state = self.root
                 if TRACE:
                     logger_debug('  unmatched')
                 if include_unmatched:
-                    n = len(token_string)
-                    start_pos = end_pos - n + 1
                     tok = Token(
                         start=start_pos,
                         end=end_pos,
@@ -344,17 +349,15 @@ class Trie(object):
                     matched_string, output_value = match.output
                     if TRACE:
                         logger_debug(' type output', repr(output_value), type(matched_string))
-                    n = len(matched_string)
-                    start_pos = end_pos - n + 1
-                    if TRACE: logger_debug('   start_pos', start_pos)
-                    yield Token(start_pos, end_pos, tokens_string[start_pos: end_pos + 1], output_value)
+                    n = len([t for t in get_tokens(matched_string) if t.strip()])
+                    match_start = starts[-n]
+                    if TRACE: logger_debug('   start_pos', match_start)
+                    yield Token(match_start, end_pos, tokens_string[match_start: end_pos + 1], output_value)
                     yielded = True
                 match = match.fail
             if not yielded and include_unmatched:
                 if TRACE:
                     logger_debug('  unmatched but known token')
-                n = len(token_string)
-                start_pos = end_pos - n + 1
                 tok = Token(start_pos, end_pos, tokens_string[start_pos: end_pos + 1], None)
                 if TRACE:
                     logger_debug('  unmatched tok 2:', tok)
@@ -617,8 +620,11 @@ _tokenizer = re.compile(r'''
 )
 
 
-def get_tokens(tokens_string):
+def get_tokens(tokens_string, lower=True):
     """
-    Return an iterable of strings splitting on spaces and parens.
+    Return an iterable of strings splitting on spaces and parens, lowercased
+    unless ``lower`` is False.
     """
-    return [match for match in _tokenizer.split(tokens_string.lower()) if match]
+    if lower:
+        tokens_string = tokens_string.lower()
+    return [match for match in _tokenizer.split(tokens_string) if match]
